@@ -194,9 +194,80 @@ func stressClose(seed int64, ms int) string {
 
 	var stop atomic.Bool
 	var wg sync.WaitGroup
-	var cycles, lookups, routedAfterClose, rewatchFailed, missAfterUpdate atomic.Int64
+	var cycles, lookups, routedAfterClose, rewatchFailed, missAfterUpdate, rewatchTooEarly, lostRoutes, handoffs atomic.Int64
 	var first firstViolation
-	bad := func() bool { return routedAfterClose.Load()+rewatchFailed.Load()+missAfterUpdate.Load() > 0 }
+	bad := func() bool {
+		return routedAfterClose.Load()+rewatchFailed.Load()+missAfterUpdate.Load()+rewatchTooEarly.Load()+lostRoutes.Load() > 0
+	}
+
+	// hand-over pairs: one goroutine Closes the watcher of a name while another polls Watch(name) in a tight
+	// loop. As soon as the poll succeeds the old target's routes must be gone (the name becomes reusable only
+	// after removal), and what the NEW watcher installs must survive the rest of the old Close.
+	handovers := 2 + r.Intn(3)
+	for i := 0; i < handovers; i++ {
+		for _, svcSide := range []bool{false, true} {
+			name := fmt.Sprintf("hand%d", i)
+			svcSide := svcSide
+			wg.Add(1)
+			go func() {
+				defer wg.Done()
+				req := &http.Request{Method: http.MethodGet, URL: &url.URL{Path: "/c/" + name}}
+				ctx := grpcCtx("/pkg.C_" + name + "/Get")
+				watch := func() (watcher, error) {
+					if svcSide {
+						return sr.Watch(name)
+					}
+					return pr.Watch(name)
+				}
+				look := func() (*bridgedesc.Target, error) {
+					if svcSide {
+						_, g, err := sr.RouteGRPC(ctx)
+						return g.Target, err
+					}
+					_, h, err := pr.RouteHTTP(req)
+					return h.Target, err
+				}
+				cur, err := watch()
+				if err != nil {
+					return
+				}
+				for round := 0; !stop.Load(); round++ {
+					dOld := closeDesc(name)
+					cur.UpdateDesc(dOld)
+					closed := make(chan struct{})
+					old := cur
+					go func() { old.Close(); close(closed) }()
+					var nw watcher
+					for {
+						if w, err := watch(); err == nil {
+							nw = w
+							break
+						}
+						runtime.Gosched()
+					}
+					// the name was reusable: the old target's routes must already be gone
+					if tgt, err := look(); err == nil && tgt == dOld {
+						rewatchTooEarly.Add(1)
+						first.set("%s round %d (service router=%v): Watch succeeded while the closing watcher's routes were still installed", name, round, svcSide)
+					}
+					dNew := closeDesc(name)
+					nw.UpdateDesc(dNew)
+					<-closed
+					if tgt, err := look(); err != nil || tgt != dNew {
+						lostRoutes.Add(1)
+						first.set("%s round %d (service router=%v): new watcher's routes gone after the old Close returned: err=%v", name, round, svcSide, err)
+					}
+					lookups.Add(2)
+					handoffs.Add(1)
+					cur = nw
+					if bad() {
+						break
+					}
+				}
+				cur.Close()
+			}()
+		}
+	}
 
 	for i := 0; i < updaters; i++ {
 		name := fmt.Sprintf("steady%d", i)
@@ -271,8 +342,83 @@ func stressClose(seed int64, ms int) string {
 	}
 	stop.Store(true)
 	wg.Wait()
-	return fmt.Sprintf("lookups=%d cycles=%d routedAfterClose=%d rewatchFailed=%d missAfterUpdate=%d first=%s",
-		lookups.Load(), cycles.Load(), routedAfterClose.Load(), rewatchFailed.Load(), missAfterUpdate.Load(), first.get())
+	return fmt.Sprintf("lookups=%d cycles=%d handoffs=%d routedAfterClose=%d rewatchFailed=%d missAfterUpdate=%d rewatchTooEarly=%d lostRoutes=%d first=%s",
+		lookups.Load(), cycles.Load(), handoffs.Load(), routedAfterClose.Load(), rewatchFailed.Load(), missAfterUpdate.Load(),
+		rewatchTooEarly.Load(), lostRoutes.Load(), first.get())
+}
+
+// stressClaim: target A owns service pkg.Claim (watched and updated first); target B also lists it and keeps
+// re-submitting its description; every lookup of the contested service must be routed to A's description.
+func stressClaim(seed int64, ms int) string {
+	r := rand.New(rand.NewSource(seed))
+	lookers := 3 + r.Intn(4)
+	prev := runtime.GOMAXPROCS(4 * runtime.NumCPU())
+	defer runtime.GOMAXPROCS(prev)
+
+	sr := routing.NewServiceRouter(pool{}, routing.ServiceRouterOpts{})
+	claim := func(name string, own string) *bridgedesc.Target {
+		return &bridgedesc.Target{Name: name, Services: []bridgedesc.Service{
+			{Name: protoreflect.FullName("pkg.Own" + own), Methods: []bridgedesc.Method{{RPCName: "/pkg.Own" + own + "/M"}}},
+			{Name: "pkg.Claim", Methods: []bridgedesc.Method{{RPCName: "/pkg.Claim/M"}}},
+		}}
+	}
+	aw, _ := sr.Watch("A")
+	dA := claim("A", "A")
+	aw.UpdateDesc(dA)
+	bw, _ := sr.Watch("B")
+
+	var stop atomic.Bool
+	var wg sync.WaitGroup
+	var updates, lookups, later, miss, mix atomic.Int64
+	var first firstViolation
+	wg.Add(1)
+	go func() {
+		defer wg.Done()
+		for !stop.Load() {
+			bw.UpdateDesc(claim("B", "B"))
+			updates.Add(1)
+		}
+	}()
+	for i := 0; i < lookers; i++ {
+		wg.Add(1)
+		go func() {
+			defer wg.Done()
+			ctx := grpcCtx("/pkg.Claim/M")
+			req := &http.Request{Method: http.MethodPost, URL: &url.URL{Path: "/pkg.Claim/M", RawPath: "/pkg.Claim/M"}}
+			judge := func(api string, tgt *bridgedesc.Target, svc *bridgedesc.Service, err error) {
+				switch {
+				case err != nil:
+					miss.Add(1)
+					first.set("%s(pkg.Claim) after %d updates of B: %v", api, updates.Load(), err)
+				case tgt != dA:
+					later.Add(1)
+					name := "?"
+					if tgt != nil {
+						name = tgt.Name
+					}
+					first.set("%s(pkg.Claim) routed to target %s after %d updates of B; the earlier claimant A owns it", api, name, updates.Load())
+				case !within(svc, dA.Services):
+					mix.Add(1)
+					first.set("%s(pkg.Claim): target A with a service of another description", api)
+				}
+			}
+			for !stop.Load() {
+				_, g, err := sr.RouteGRPC(ctx)
+				judge("RouteGRPC", g.Target, g.Service, err)
+				_, h, err := sr.RouteHTTP(req)
+				judge("RouteHTTP", h.Target, h.Service, err)
+				lookups.Add(2)
+			}
+		}()
+	}
+	deadline := time.Now().Add(time.Duration(ms) * time.Millisecond)
+	for time.Now().Before(deadline) && later.Load()+miss.Load()+mix.Load() == 0 {
+		time.Sleep(2 * time.Millisecond)
+	}
+	stop.Store(true)
+	wg.Wait()
+	return fmt.Sprintf("lookups=%d updates=%d later=%d miss=%d mix=%d first=%s",
+		lookups.Load(), updates.Load(), later.Load(), miss.Load(), mix.Load(), first.get())
 }
 
 func execStress(f []string) string {
@@ -293,6 +439,8 @@ func execStress(f []string) string {
 		out = stressGap(seed, ms)
 	case "close":
 		out = stressClose(seed, ms)
+	case "claim":
+		out = stressClaim(seed, ms)
 	}
 	if !strings.HasSuffix(out, "first=-") && out != "BADINPUT" {
 		stressFound.Store(true)
